@@ -47,6 +47,7 @@ type Obs struct {
 	State    uint8  `json:"state"`
 	Panic    string `json:"panic,omitempty"`
 	TimedOut bool   `json:"timed_out,omitempty"`
+	Stuck    bool   `json:"stuck,omitempty"` // did not return even after the connection was shut down
 
 	Trace  []Ev     `json:"trace"`
 	Calls  []SVal   `json:"calls"`
@@ -370,10 +371,13 @@ func Run(sc *Scenario, f Fault, mat *TLSMaterial) Obs {
 	cancel()
 	p.Shutdown()
 	if obs.TimedOut {
-		// the shutdown unblocks the call; collect it so that nothing leaks
+		// the shutdown unblocks a call that waits on the connection; collect it so that
+		// nothing leaks. A call that does not come back even now is spinning (it cannot be
+		// stopped): the caller must not start further runs next to it.
 		select {
 		case r = <-resc:
 		case <-time.After(5 * time.Second):
+			obs.Stuck = true
 		}
 	}
 	select {
